@@ -318,7 +318,7 @@ def _id_check(prop, tier, seed, t0, caps_q, floors):
 def spec_C05(prop, tier, seed, t0):
     return _id_check(prop, tier, seed, t0, QUICK_CAPS,
                      {"thread_lifetimes": 10000, "claims_that_probed_more_than_one_slot": 2000,
-                      "claims_that_wrapped_around": 200})
+                      "claims_that_wrapped_around": 200, "stability_checks_while_heartbeat_pinned": 100})
 
 
 def spec_C14(prop, tier, seed, t0):
@@ -330,7 +330,7 @@ def spec_C14(prop, tier, seed, t0):
 def spec_C15(prop, tier, seed, t0):
     return _id_check(prop, tier, seed, t0, [1, 2, 3, 8],
                      {"id_reuses_checked": 5000, "chaos_overlaps:43+44": 300,
-                      "heartbeat_alive_checks_on_running_threads": 40})
+                      "heartbeat_alive_checks_on_running_threads": 40, "heartbeats_pinned_by_other_threads": 100})
 
 
 EPOCH_RULE = ("one evaluation = one ForwardGlobalEpoch, one guard or one list returned by GetProtectedEpochs in a run "
@@ -360,8 +360,11 @@ def spec_C16(prop, tier, seed, t0):
     caps = QUICK_CAPS if tier == "quick" else THOROUGH_CAPS
     runs, scale = (8, 1) if tier == "quick" else (40, 8)
     jobs = thr_jobs("epoch", caps, seed, runs, scale, extra=_epoch_extra(["A"]))
-    jobs += thr_jobs("model", caps, seed + 1, 2 if tier == "quick" else 10, 2 if tier == "quick" else 10)
-    return _mk(prop, tier, seed, t0, jobs, {"forwards": 200000, "quiescent_checks": 50, "monotonic_read_checks": 4000},
+    jobs += thr_jobs("model", caps, seed + 1, 2 if tier == "quick" else 10, 4 if tier == "quick" else 20)
+    # very long histories: every power of two up to 2^24 (quick) / 2^32 (thorough, ~5 min on one core) is crossed
+    jobs += thr_jobs("long", [1, 8], seed + 2, 1, 24 if tier == "quick" else 32, timeout=3600, cost=1)
+    return _mk(prop, tier, seed, t0, jobs, {"forwards": 200000, "quiescent_checks": 50, "monotonic_read_checks": 4000,
+                                           "powers_of_two_crossed": 30, "guards_assigned_over_live_guard_of_other_manager": 100},
                rule=EPOCH_RULE, assumptions=THR_ASSUME)
 
 
@@ -381,7 +384,7 @@ def spec_C17(prop, tier, seed, t0):
 
 def spec_C20(prop, tier, seed, t0):
     caps = QUICK_CAPS if tier == "quick" else THOROUGH_CAPS
-    runs, scale = (4, 4) if tier == "quick" else (30, 20)
+    runs, scale = (4, 8) if tier == "quick" else (30, 40)
     jobs = thr_jobs("model", caps, seed, runs, scale)
     jobs += thr_jobs("model", [3, 8], seed + 3, 1 if tier == "quick" else 10, 2, flavor="asan", stderr_rules=[LEAK_RULE])
     rule = ("one evaluation = one ForwardGlobalEpoch in a lock-step (sequential) history of guard creation/destruction "
